@@ -522,6 +522,8 @@ class Normalizer:
                 any(isinstance(a, ast.Starred) for a in c.args):
             return
         name = c.func.attr
+        if name in _BUILTIN_METHODS:
+            return          # `xs.sort(key=.., reverse=..)` on a builtin list must not be mistaken for a package method
         results = []
         for clsname, methods in self.by_class.items():
             fd = methods.get(name)
@@ -611,6 +613,9 @@ class Normalizer:
                                 s2 = _Subst(use, keep_loc=True).visit(s)
                                 new_body.append(s2)
                             fn.body = new_body
+
+
+_BUILTIN_METHODS = set(dir(list)) | set(dir(dict)) | set(dir(set)) | set(dir(str)) | set(dir(tuple))
 
 
 def _immutable_const(x) -> bool:
